@@ -22,7 +22,7 @@ EXTENDS CidLoad, IOUtils
 
 Traces == JsonDeserialize(IOEnv.TRACE_FILE)
 VARIABLES tid, l
-tvars == <<label, rows, pos, fmt, contra, fields, checks, status, errRow, tid, l>>
+tvars == <<label, rows, pos, fmt, contra, fields, checks, status, errRow, narrowNow, firstField, tid, l>>
 Ev == Traces[tid].events[l]
 NEvents == Len(Traces[tid].events)
 
@@ -38,11 +38,14 @@ Candidates(t) ==
       plain == [i \in 1..n |-> RowOf(rs[i], FALSE)]
       lastBroken == IF n > 0 /\ ~rs[n].ended THEN {[plain EXCEPT ![n] = RowOf(rs[n], TRUE)]} ELSE {}
       contradictory == {[plain EXCEPT ![i].tag = "contra"] : i \in {j \in 1..n : plain[j].tag = "good"}}
-  IN {plain} \cup lastBroken \cup contradictory
+      \* ... or the one under which the examples of the fields are no values any more
+      narrowing == {[plain EXCEPT ![i].tag = "narrow"] : i \in {j \in 1..n : plain[j].tag = "good"}}
+  IN {plain} \cup lastBroken \cup contradictory \cup narrowing
 
 TInit == /\ tid \in 1..Len(Traces) /\ l = 1
          /\ rows \in Candidates(Traces[tid]) /\ label = "trace"
          /\ pos = 0 /\ fmt = "" /\ contra = FALSE /\ fields = <<>> /\ checks = <<>> /\ status = "loading" /\ errRow = 0
+         /\ narrowNow = FALSE /\ firstField = 0
 
 TrRow == /\ l <= NEvents /\ Ev.ev = "row"
          /\ Ev.line = pos                                       \* rows are numbered consecutively, empty rows included
